@@ -55,6 +55,15 @@ def call(I, name, args, e):
         if m.group(2) == 'new': return args[0]
         args[0].place.set(args[1]); return UNIT
 
+    # ---------------- calling a closure / function value through the Fn traits: f(args)
+    if n in ('core::ops::FnOnce::call_once', 'core::ops::FnMut::call_mut', 'core::ops::Fn::call') and len(args) == 2:
+        fv = args[0]
+        while isinstance(fv, RefV): fv = fv.place.get()
+        tup = args[1]
+        while isinstance(tup, RefV): tup = tup.place.get()
+        if isinstance(fv, ClosureV) and (isinstance(tup, TupleV) or tup is UNIT or isinstance(tup, type(UNIT))):
+            return I.call_closure(fv, list(tup.items) if isinstance(tup, TupleV) else [], e)
+        return I.top('call of a function value that is not a known closure', e)
     # ---------------- mem::replace / swap / take on places
     if n == 'core::mem::replace' and isinstance(args[0], RefV):
         old = args[0].place.get(); args[0].place.set(args[1]); I.log.append(('mutate', n, e.get('sp'), _tgt(a0))); return old
